@@ -240,6 +240,10 @@ class Walker:
             f = st.facts.get(v)
             if f and f['eq'] is not None:
                 return f['eq']
+            if base[0] == 'new' and base[1] in self.facts.classes:
+                got = self.field_of_new(base, node.attr)
+                if got is not None:
+                    return got
             return v
         if isinstance(node, ast.Call):
             args = []
@@ -444,6 +448,11 @@ class Walker:
                         return C(r)
                 except (KeyError, IndexError, TypeError):
                     pass
+            if base[0] == 'name' and is_const(idx) and base[1] not in st.env and base[1] not in self.facts.consts:
+                # a module-level table written as a literal whose entries are not plain constants (objects, partials): the entry
+                lit = self.module_literal(base[1])
+                if lit is not None:
+                    base = lit
             if base[0] == 'dict' and is_const(idx):
                 for k, v in base[1]:
                     if k == idx:
@@ -613,6 +622,50 @@ class Walker:
         if a is None or b is None:
             return None
         return ('ifexp', tests[0], a, b)
+
+    def module_literal(self, name):
+        """Symbolic value of a module-level `NAME = {literal dict / list / tuple}` assigned exactly once (None otherwise)."""
+        cache = self.__dict__.setdefault('_module_literals', {})
+        if name not in cache:
+            cache[name] = None
+            node = self.facts.assign_nodes.get(name) if hasattr(self.facts, 'assign_nodes') else None
+            val = getattr(node, 'value', None)
+            n_assign = sum(1 for st_ in self.facts.tree.body if isinstance(st_, (ast.Assign, ast.AugAssign, ast.AnnAssign))
+                           for t in (st_.targets if isinstance(st_, ast.Assign) else [st_.target]) for x in ast.walk(t)
+                           if isinstance(x, ast.Name) and x.id == name)
+            if isinstance(val, (ast.Dict, ast.List, ast.Tuple)) and n_assign == 1 and self._inline_stack.count('<module {}>'.format(name)) == 0:
+                self._inline_stack.append('<module {}>'.format(name))
+                try:
+                    v = self.sym(val, PathState())
+                    if v[0] in ('dict', 'list', 'tuple'):
+                        cache[name] = v
+                except AnalysisError:
+                    pass
+                finally:
+                    self._inline_stack.pop()
+        return cache[name]
+
+    def field_of_new(self, obj, attr):
+        """obj.attr for a freshly constructed object whose __init__ stores its parameters in attributes."""
+        try:
+            params = [p_ for p_, _ in self.facts.init_params(obj[1])]
+            order = dict(self.facts.full_attr_order(obj[1]))
+        except (KeyError, AnalysisError):
+            return None
+        src = order.get(attr)
+        if src is None:
+            return None
+        bound = {}
+        for i, a in enumerate(obj[2]):
+            if a[0] == 'star':
+                return None
+            if i < len(params):
+                bound[params[i]] = a
+        for n, a in obj[3]:
+            if n is None:
+                return None
+            bound[n] = a
+        return bound.get(src)
 
     def eval_call(self, target, args, kwargs, st):
         """Value of calling a lambda / local-closure value when its body is a single effect-free path (predicate factories,
